@@ -6,9 +6,11 @@ import (
 	"time"
 
 	"github.com/Trendyol/go-dcp/helpers"
+	"github.com/Trendyol/go-dcp/leaderelector"
 	"github.com/Trendyol/go-dcp/membership"
 	"github.com/Trendyol/go-dcp/models"
 	"github.com/Trendyol/go-dcp/servicediscovery"
+	"github.com/Trendyol/go-dcp/stream"
 	"github.com/asaskevich/EventBus"
 
 	"verif/vrt"
@@ -29,6 +31,7 @@ type rpcNode struct {
 	sd     servicediscovery.ServiceDiscovery
 	events [][2]int
 	alive  bool
+	le     leaderelector.Handler // the real election callbacks of stream/leader_election.go
 }
 
 func init() {
@@ -44,7 +47,9 @@ func registerMain() {
 	o.defaults()
 	addr := func(id *models.Identity) string { return fmt.Sprintf("%s:%d", id.IP, sdPort) }
 	var hist []string
-	boot := func(name, ip string, join int64) *rpcNode {
+	var boot func(name, ip string, join int64) *rpcNode
+	listen := true
+	boot = func(name, ip string, join int64) *rpcNode {
 		n := &rpcNode{id: &models.Identity{IP: ip, Name: name, ClusterJoinTime: join}, alive: true}
 		bus := EventBus.New()
 		_ = bus.Subscribe(helpers.MembershipChangedBusEventName, func(m *membership.Model) {
@@ -55,25 +60,36 @@ func registerMain() {
 				vrt.Failf("after %v: %s announced the numbering %d/%d although it is already in effect (the stream is interrupted for nothing)", hist, name, m.MemberNumber, m.TotalMembers)
 			}
 		})
-		n.sd = servicediscovery.NewServiceDiscovery(o.config(), bus)
-		vrpc.Serve(addr(n.id), servicediscovery.VerifNewHandler(sdPort, n.id, n.sd))
+		cfg := o.config()
+		cfg.LeaderElection.RPC.Port = sdPort
+		n.sd = servicediscovery.NewServiceDiscovery(cfg, bus)
+		n.le = stream.VerifLeaderHandler(cfg, n.sd, bus, n.id)
+		if listen {
+			vrpc.Serve(addr(n.id), servicediscovery.VerifNewHandler(sdPort, n.id, n.sd))
+		}
 		n.sd.StartHeartbeat()
 		n.sd.StartMonitor()
 		return n
 	}
 	leader := boot("L", "10.0.0.1", 1)
-	leader.sd.BeLeader()
-	join := func(n *rpcNode) {
-		cl, err := servicediscovery.NewClient(sdPort, n.id, leader.id)
-		if err != nil {
-			vrt.Failf("after %v: %s cannot reach the leader: %v", hist, n.id.Name, err)
-			return
-		}
-		n.sd.AssignLeader(servicediscovery.NewService(cl, leader.id.Name, leader.id.ClusterJoinTime))
-		if err := cl.Register(); err != nil {
-			vrt.Failf("after %v: registration of %s failed: %v", hist, n.id.Name, err)
-		}
+	leader.le.OnBecomeLeader()
+	// the real OnBecomeFollower: drop everything, connect to the leader, register. It panics when the
+	// registration fails (the process dies and is restarted by its supervisor); tryJoin reports that.
+	tryJoin := func(n *rpcNode) (died bool) {
+		defer func() {
+			if r := recover(); r != nil {
+				died = true
+				hist = append(hist, fmt.Sprintf("register(%s@%d) failed: process exits (%v)", n.id.Name, n.id.ClusterJoinTime, r))
+			}
+		}()
+		n.le.OnBecomeFollower(leader.id)
 		hist = append(hist, fmt.Sprintf("register(%s@%d)", n.id.Name, n.id.ClusterJoinTime))
+		return false
+	}
+	join := func(n *rpcNode) {
+		if tryJoin(n) {
+			vrt.Failf("after %v: the registration of %s failed", hist, n.id.Name)
+		}
 	}
 	kill := func(n *rpcNode) {
 		n.alive = false
@@ -118,26 +134,51 @@ func registerMain() {
 	check("after registration")
 	victim := nodes[vrt.Choose(nf, true, "victim")]
 	vrt.Window(true)
-	switch vrt.Choose(5, true, "disturbance") {
+	switch vrt.Choose(6, true, "disturbance") {
 	case 0:
+	case 5:
+		// a new instance registers while its own RPC listener is not reachable yet: the leader cannot connect
+		// back, the registration fails, the process exits and is restarted by its supervisor - this time with
+		// the listener up. It is admitted then.
+		listen = false
+		nw := boot(fmt.Sprintf("F%d", nf), fmt.Sprintf("10.0.0.%d", 2+nf), 200)
+		listen = true
+		hist = append(hist, "new instance, listener not reachable yet")
+		if tryJoin(nw) {
+			nw.sd.StopHeartbeat()
+			nw.sd.StopMonitor()
+			nw = boot(nw.id.Name, nw.id.IP, 201)
+			hist = append(hist, "restarted")
+			join(nw)
+		} else {
+			// the registration was accepted: from now on the listener is up (it came up a moment later)
+			vrpc.Serve(addr(nw.id), servicediscovery.VerifNewHandler(sdPort, nw.id, nw.sd))
+		}
+		nodes = append(nodes, nw)
 	case 4:
 		// leader fail-over: the leader dies, a new instance takes over the lease; every follower is told
 		// (OnBecomeFollower: drop the old leader, connect to the new one, register). The new leader numbers
 		// the followers as before - for them nothing changes.
 		kill(leader)
-		old := leader
 		leader = boot("L2", "10.0.0.9", 2)
-		leader.sd.BeLeader()
+		// the new leader's own OnBecomeLeader callback runs on the elector's thread (after a Kubernetes API
+		// call); the followers see the new lease holder at once: their registrations are served before or
+		// after that callback
+		cbAfter := vrt.Choose(nf+1, true, "registrations-served-before-the-become-leader-callback")
+		served := 0
+		if cbAfter == 0 {
+			leader.le.OnBecomeLeader()
+		}
 		for _, n := range nodes {
 			if n.alive {
-				n.sd.DontBeLeader()
-				n.sd.RemoveAll()
-				n.sd.RemoveLeader()
 				join(n)
+				served++
+				if served == cbAfter {
+					leader.le.OnBecomeLeader()
+				}
 			}
 		}
-		_ = old
-		hist = append(hist, "leader-failover")
+		hist = append(hist, fmt.Sprintf("leader-failover(callback after %d registrations)", cbAfter))
 	case 3:
 		// a network interruption resets every connection; all processes stay alive. The leader drops the
 		// followers it cannot ping; each follower notices that its leader connection is dead, reconnects and
